@@ -38,6 +38,7 @@ const racerBin = "/verif/build/bin/c18racer"
 
 type runReq struct {
 	Threads     [][]int `json:"threads"`
+	Epilogue    []int   `json:"epilogue"`
 	Prefix      []int   `json:"prefix"`
 	Interesting []int   `json:"interesting"`
 	MaxPoints   int     `json:"maxPoints"`
@@ -53,6 +54,7 @@ type point struct {
 
 type runOut struct {
 	Results  [][]string `json:"results"`
+	Epilogue []string   `json:"epilogue"`
 	Points   []point    `json:"points"`
 	Panics   []string   `json:"panics"`
 	Diverged string     `json:"diverged"`
@@ -104,6 +106,15 @@ var (
 
 type scenario struct {
 	Threads [][]int
+}
+
+// epilogue: every operation of the scenario once more, sequentially, after the threads finished
+func (s scenario) epilogue() []int {
+	var e []int
+	for _, t := range s.Threads {
+		e = append(e, t...)
+	}
+	return e
 }
 
 func (s scenario) name() string {
@@ -260,6 +271,13 @@ func judge(s scenario, o runOut, choices []int, l *mc.Local) bool {
 			}
 		}
 	}
+	for k, op := range s.epilogue() {
+		if k < len(o.Epilogue) && o.Epilogue[k] != solo[op].Result {
+			d := fmt.Sprintf("%s: after the concurrent phase a sequential %s returned %.160q, alone it returns %.160q (schedule %v)", s.name(), opNames[op], o.Epilogue[k], solo[op].Result, choices)
+			chk.Violation("C18/result-differs-afterwards/"+opNames[op], d, replayCase{s.name(), s.Threads, choices, d})
+			ok = false
+		}
+	}
 	l.Distinct("outcomes", fmt.Sprint(o.Results))
 	return ok
 }
@@ -292,7 +310,7 @@ func stage2() {
 	n := len(opNames)
 	for a := 0; a < n; a++ {
 		for b := a; b < n; b++ {
-			scen = append(scen, scenario{[][]int{{a, b}, {b, a}}})
+			scen = append(scen, scenario{[][]int{{a}, {b}}})
 		}
 	}
 	sub := []int{}
@@ -317,7 +335,7 @@ func stage2() {
 	// independent scenarios: all thread orders, batched per process
 	const batch = 12
 	nb := (len(indep) + batch - 1) / batch
-	chk.Range(fmt.Sprintf("stage 2a: %d scenarios whose operations write no shared state (all pairs a<=b as threads [a,b]||[b,a]; triples of a %d-operation sub-alphabet): every thread order (non-preemptive schedules), shared state re-hashed after every execution", len(indep), len(sub)), nb,
+	chk.Range(fmt.Sprintf("stage 2a: %d scenarios whose operations write no shared state (all pairs a<=b as threads [a]||[b] followed by a sequential epilogue a,b; triples of a %d-operation sub-alphabet): every thread order (non-preemptive schedules), shared state re-hashed after every execution", len(indep), len(sub)), nb,
 		func(i int) string { return fmt.Sprint("batch ", i) },
 		func(l *mc.Local, i int) {
 			var reqs []runReq
@@ -326,7 +344,7 @@ func stage2() {
 			for k := i * batch; k < (i+1)*batch && k < len(indep); k++ {
 				s := indep[k]
 				for _, ord := range threadOrders(len(s.Threads)) {
-					reqs = append(reqs, runReq{Threads: s.Threads, Prefix: ord})
+					reqs = append(reqs, runReq{Threads: s.Threads, Epilogue: s.epilogue(), Prefix: ord})
 					owner = append(owner, s)
 					orders = append(orders, ord)
 				}
@@ -364,7 +382,7 @@ func stage2() {
 				}
 			}
 		})
-	chk.Sample("independent scenario", map[string]interface{}{"threads": "[qr-w-v1,dm-r-located] || [dm-r-located,qr-w-v1]", "schedules": "thread 0 first; thread 1 first"})
+	chk.Sample("independent scenario", map[string]interface{}{"threads": "[qr-w-v1] || [dm-r-located], then sequentially qr-w-v1, dm-r-located", "schedules": "thread 0 first; thread 1 first"})
 	if len(dep) == 0 {
 		chk.Subspace("stage 2b: scenarios with shared writes", "none on this tree")
 		return
@@ -416,7 +434,7 @@ func exploreDependent(dep []scenario) {
 					levels[b] = levels[b][:len(levels[b])-1]
 					var outs []runOut
 					l.Beat(s.name())
-					err := worker(map[string]interface{}{"mode": "runs", "runs": []runReq{{Threads: s.Threads, Prefix: prefix, Interesting: I, MaxPoints: maxPoints}}}, &outs)
+					err := worker(map[string]interface{}{"mode": "runs", "runs": []runReq{{Threads: s.Threads, Epilogue: s.epilogue(), Prefix: prefix, Interesting: I, MaxPoints: maxPoints}}}, &outs)
 					if err == errHung {
 						chk.Incomplete("stage 2b "+s.name(), fmt.Sprintf("worker hung under schedule %v (blocking or spinning outside the primitives the scheduler models); left to the race pass", prefix))
 						break outer
@@ -442,7 +460,7 @@ func exploreDependent(dep []scenario) {
 					}
 					if !judge(s, o, choicesOf(o.Points), l) {
 						var again []runOut
-						if err := worker(map[string]interface{}{"mode": "runs", "runs": []runReq{{Threads: s.Threads, Prefix: choicesOf(o.Points), Interesting: I, MaxPoints: maxPoints}}}, &again); err == nil && len(again) == 1 {
+						if err := worker(map[string]interface{}{"mode": "runs", "runs": []runReq{{Threads: s.Threads, Epilogue: s.epilogue(), Prefix: choicesOf(o.Points), Interesting: I, MaxPoints: maxPoints}}}, &again); err == nil && len(again) == 1 {
 							if fmt.Sprint(again[0].Results) != fmt.Sprint(o.Results) {
 								chk.Note("failure in " + s.name() + " did not reproduce identically on replay")
 							}
@@ -484,109 +502,93 @@ func exploreDependent(dep []scenario) {
 
 func stage3() {
 	n := len(opNames)
-	type pair struct{ a, b int }
-	var pairs []pair
-	if chk.Quick() {
-		for a := 0; a < n; a++ {
-			pairs = append(pairs, pair{a, a}, pair{a, (a + 1) % n}, pair{a, (a + 11) % n})
-		}
-	} else {
-		for a := 0; a < n; a++ {
-			for b := a; b < n; b++ {
-				pairs = append(pairs, pair{a, b})
-			}
-		}
-	}
+	type job struct{ a, b, k int }
+	var jobs []job
 	ks := []int{4}
 	reps := 1
 	if !chk.Quick() {
 		ks = []int{2, 8, 16}
-		reps = 3
+		reps = 2
 	}
-	shards := 16
-	chk.Range(fmt.Sprintf("stage 3: free-running race-detector pass, %d operation pairs x goroutine counts %v x %d repetitions, each goroutine calling its operation twice", len(pairs), ks, reps), shards,
-		func(i int) string { return fmt.Sprint("race shard ", i) },
-		func(l *mc.Local, i int) {
-			var mine []pair
-			for k := i; k < len(pairs); k += shards {
-				mine = append(mine, pairs[k])
+	for a := 0; a < n; a++ {
+		for b := a; b < n; b++ {
+			if chk.Quick() {
+				// every operation with itself, its neighbour, and every other operation of the same
+				// family (same name prefix up to the first '-'): families share tables and helpers
+				same := strings.SplitN(opNames[a], "-", 2)[0] == strings.SplitN(opNames[b], "-", 2)[0]
+				if !(b == a || b == a+1 || same || b == (a+11)%n) {
+					continue
+				}
 			}
-			for len(mine) > 0 {
-				var in bytes.Buffer
-				for _, p := range mine {
-					for _, k := range ks {
-						fmt.Fprintf(&in, "%d %d %d %d\n", p.a, p.b, k, reps)
-					}
-				}
-				cmd := exec.Command(racerBin)
-				cmd.Stdin = &in
-				var so, se bytes.Buffer
-				cmd.Stdout, cmd.Stderr = &so, &se
-				cmd.Env = append(os.Environ(), "GORACE=halt_on_error=1 exitcode=66", "GOMAXPROCS=4")
-				l.Beat("racer")
-				err := cmd.Run()
-				done := map[pair]int{}
-				sc := bufio.NewScanner(&so)
-				sc.Buffer(make([]byte, 1<<20), 1<<20)
-				for sc.Scan() {
-					var a, b int
-					var mm string
-					if c, _ := fmt.Sscanf(sc.Text(), "DONE %d %d %q", &a, &b, &mm); c >= 2 {
-						done[pair{a, b}]++
-						l.Count("evaluations", 1)
-						l.Distinct("nontrivial", fmt.Sprint("race", a, b, done[pair{a, b}]))
-						if mm != "" {
-							d := fmt.Sprintf("free-running %s with %s: %s", opNames[a], opNames[b], mm)
-							chk.Violation("C18/free-running-result-differs/"+opNames[a]+"+"+opNames[b], d, replayCase{Scenario: d})
-						}
-					}
-				}
-				if err == nil {
-					break
-				}
-				// the racer died: find the pair in flight and the report
+			for _, k := range ks {
+				jobs = append(jobs, job{a, b, k})
+			}
+		}
+	}
+	chk.Range(fmt.Sprintf("stage 3: free-running race-detector pass, %d (pair, goroutine count) jobs over goroutine counts %v x %d repetitions, one COLD process per job (no warm-up: lazily built state is built concurrently), each goroutine calling its operation twice, then a sequential epilogue", len(jobs), ks, reps), len(jobs),
+		func(i int) string {
+			return fmt.Sprint("race ", opNames[jobs[i].a], " ", opNames[jobs[i].b], " k=", jobs[i].k)
+		},
+		func(l *mc.Local, i int) {
+			j := jobs[i]
+			ctx, cancel := context.WithTimeout(context.Background(), 600*time.Second)
+			defer cancel()
+			cmd := exec.CommandContext(ctx, racerBin, fmt.Sprint(j.a), fmt.Sprint(j.b), fmt.Sprint(j.k), fmt.Sprint(reps))
+			var so, se bytes.Buffer
+			cmd.Stdout, cmd.Stderr = &so, &se
+			cmd.Env = append(os.Environ(), "GORACE=halt_on_error=1 exitcode=66", "GOMAXPROCS=4")
+			l.Beat("racer " + opNames[j.a] + " " + opNames[j.b])
+			err := cmd.Run()
+			l.Count("evaluations", 1)
+			l.Distinct("nontrivial", fmt.Sprint("race", j))
+			pairName := opNames[j.a] + "+" + opNames[j.b]
+			if err != nil {
 				errs := se.String()
-				last := pair{-1, -1}
-				for _, ln := range strings.Split(errs, "\n") {
-					var a, b int
-					if c, _ := fmt.Sscanf(ln, "PAIR %d %d", &a, &b); c == 2 {
-						last = pair{a, b}
-					}
-				}
-				if strings.Contains(errs, "DATA RACE") && last.a >= 0 {
+				if strings.Contains(errs, "DATA RACE") {
 					rep := errs[strings.Index(errs, "WARNING: DATA RACE"):]
 					if len(rep) > 3000 {
 						rep = rep[:3000]
 					}
 					site := raceSite(rep)
-					d := fmt.Sprintf("data race while running %s concurrently with %s at %s", opNames[last.a], opNames[last.b], site)
-					chk.Violation("C18/data-race/"+site, d, replayCase{Scenario: opNames[last.a] + " || " + opNames[last.b], Detail: rep})
-				} else {
-					tail := errs
-					if len(tail) > 2000 {
-						tail = tail[len(tail)-2000:]
-					}
-					nm := "?"
-					if last.a >= 0 {
-						nm = opNames[last.a] + "+" + opNames[last.b]
-					}
-					chk.Violation("C18/racer-died/"+nm, fmt.Sprintf("race-pass process died (%v): %s", err, tail), replayCase{Scenario: nm, Detail: tail})
+					d := fmt.Sprintf("data race while running %s concurrently with %s on %d goroutines, at %s", opNames[j.a], opNames[j.b], j.k, site)
+					chk.Violation("C18/data-race/"+site, d, replayCase{Scenario: opNames[j.a] + " || " + opNames[j.b], Detail: rep})
+					return
 				}
-				// continue after the offending pair
-				var rest []pair
-				skip := true
-				for _, p := range mine {
-					if !skip {
-						rest = append(rest, p)
+				if ctx.Err() != nil {
+					chk.Incomplete("stage 3 "+pairName, "race-pass process exceeded 600 s")
+					return
+				}
+				tail := errs
+				if len(tail) > 2000 {
+					tail = tail[len(tail)-2000:]
+				}
+				chk.Violation("C18/racer-died/"+pairName, fmt.Sprintf("race-pass process died (%v): %s", err, tail), replayCase{Scenario: pairName, Detail: tail})
+				return
+			}
+			sc := bufio.NewScanner(&so)
+			sc.Buffer(make([]byte, 1<<20), 1<<20)
+			done := false
+			for sc.Scan() {
+				var which int
+				var r1, r2 string
+				if sc.Text() == "DONE" {
+					done = true
+				}
+				if c, _ := fmt.Sscanf(sc.Text(), "RES %d %q %q", &which, &r1, &r2); c == 3 {
+					op := j.a
+					if which == 1 {
+						op = j.b
 					}
-					if p == last {
-						skip = false
+					for _, r := range []string{r1, r2} {
+						if r != solo[op].Result {
+							d := fmt.Sprintf("free-running %s with %s on %d goroutines: %s returned %.160q, alone it returns %.160q", opNames[j.a], opNames[j.b], j.k, opNames[op], r, solo[op].Result)
+							chk.Violation("C18/free-running-result-differs/"+opNames[op], d, replayCase{Scenario: d})
+						}
 					}
 				}
-				if last.a < 0 {
-					break
-				}
-				mine = rest
+			}
+			if !done {
+				chk.Violation("C18/racer-died/"+pairName, "race-pass process ended without completing", replayCase{Scenario: pairName})
 			}
 		})
 }
@@ -630,7 +632,7 @@ func replay() {
 	s := scenario{rc.Threads}
 	var outs []runOut
 	start := time.Now()
-	err := worker(map[string]interface{}{"mode": "runs", "runs": []runReq{{Threads: s.Threads, Prefix: rc.Choices, Interesting: interesting(s), MaxPoints: 5000}}}, &outs)
+	err := worker(map[string]interface{}{"mode": "runs", "runs": []runReq{{Threads: s.Threads, Epilogue: s.epilogue(), Prefix: rc.Choices, Interesting: interesting(s), MaxPoints: 5000}}}, &outs)
 	fmt.Printf("replay %s schedule %v: err=%v (%.2fs)\n", s.name(), rc.Choices, err, time.Since(start).Seconds())
 	if err == nil && len(outs) == 1 {
 		l := chk.NewLocal()
